@@ -106,7 +106,8 @@ prop(
                 "incremental, from empty()) and IgnoreFilterer::check_event / check_dir. A verdict is judged against two "
                 "independent oracles (a reference evaluator written from the statement and real `git check-ignore`) only "
                 "where both agree; oracle-free metamorphic laws decide scoping (with/without each file), list permutation, "
-                "bulk vs incremental and repeated construction"),
+                "bulk vs incremental and repeated construction; two-path events (a directory-typed path and an untyped one) must be "
+                "judged path by path"),
     level_note=("git 2.39 and the small reference glob matcher are trusted where they agree; probes on which they disagree (git's "
                 "no-re-include-below-an-excluded-directory rule) are counted as oracle-ambiguous, not judged; the directory-vs-"
                 "its-own-ignore-file case is skipped as the statement says"),
@@ -250,7 +251,7 @@ prop(
                 ".hgignore files (non-empty, empty, directories of that name, one in eight a symbolic link to a regular file) whose patterns ignore directories, files or nothing, "
                 "with negations; VCS metadata directories with decoy ignore files at the origin and deeper; origin-level files "
                 "(.git/info/exclude, core.excludesFile, .bzrignore, _darcs/prefs/boring, .fossil-settings/ignore-glob); explicit "
-                "ignore files and explicit watch lists (directories of the tree and / or paths outside the origin: a prefix-named "
+                "ignore files (also ones that discovery finds as well), core.excludesFile in the first of two [core] sections, and explicit watch lists (directories of the tree and / or paths outside the origin: a prefix-named "
                 "sibling, an unrelated tree, the origin's parent, the origin itself). from_origin's result is compared as a set of (path, applies_in, applies_to) "
                 "with an independent walker built on the C03 reference evaluator; the error list must be empty; the same logical "
                 "tree is re-created twice in different creation orders on tmpfs (/dev/shm lists in creation order) and must give "
@@ -302,7 +303,8 @@ prop(
                 "remove / mkdir -p / rm -r) under the native and the poll watcher, each notify event stamped with a unique id by a "
                 "wrapping watcher (hook H1); OS signals sent to the process and keyboard EOF (stdin already at EOF, or a pipe that "
                 "is closed after the source was enabled and 1-4 other settings changed: exactly one event, also after later "
-                "changes). Offline set oracle: delivered multiset == {sent ok and (urgent or empty or pass)} with all "
+                "changes); events that are equal to one another (three empty, three identical tagged ones) sent back to back. "
+                "Offline set oracle: delivered multiset == {sent ok and (urgent or empty or pass)} with all "
                 "multiplicities 1, nothing rejected / erroring / unsent delivered, no empty batch"),
     level_note=_RT_NOTE + "; loss inside inotify / notify before the hook is out of reach",
     technique="offline conservation checker (exactly-once / no-loss between producer and consumer event logs) over stress workloads",
@@ -336,7 +338,7 @@ prop(
     level="fault_enumeration",
     level_text=("injected faults: filter errors on chosen events (unique text per event) in bursts larger than the error queue (1, 2, 64), "
                 "watch / unwatch failures on chosen paths through a fake watcher (hook H1); error-handler behaviours {ignore, elevate the "
-                "n-th, raise critical at the n-th, replace itself from inside, slow}. Oracle over the on_error log, the batches and "
+                "n-th, raise critical at the n-th (with or without keeping the earlier errors' hooks alive), replace itself from inside, slow}. Oracle over the on_error log, the batches and "
                 "main()'s result: every fault id exactly once, the faulty event in no batch, all other accepted events delivered "
                 "(C01's oracle), main alive until the quit unless elevated / critical, then main ends with exactly that error and no "
                 "later batch; replacement takes effect for the next error only; a filter error counts as raised only if the recording "
@@ -379,7 +381,8 @@ prop(
     level_text=("seeded scenarios on a real Watchexec instance whose action handler creates 0-4 jobs running real helper processes "
                 "(vchild: exits 0/5/20 ms after the signal or ignores it, forks grandchildren with their own reaction; plain, "
                 "process-group and session spawn options), drives each into a state {running, never started, finished, mid graceful "
-                "restart with an armed 150 ms timer, already deleted, 40 queued controls, a handle clone held by the driver}, then "
+                "restart with an armed 150 ms timer, already deleted, 40 queued controls, a graceful stop pending when delete_now() is "
+                "called, a handle clone held by the driver (the harness drops its own handles when it requests the quit)}, then "
                 "requests quit() or quit_gracefully(sig, grace in {0, 100, 300 ms}) — also from the very action that created the jobs. "
                 "Readiness = each process's `start` line (written after its signal mask is set). Oracles: main() returns Ok within "
                 "1 s (abort) or armed grace + quit grace + 1 s (graceful), heartbeat-guarded; afterwards every pid that appeared in "
